@@ -86,7 +86,9 @@ def _dataclass_parameters(class_: Class) -> list[Parameter]:
             # - @property
             # - @cached_property
             # - ClassVar annotation
-            if "property" in member.labels or (
+            if "property" in member.labels:
+                continue
+            if (
                 # TODO: It is better to explicitly check for `ClassVar`, but
                 # `Visitor.handle_attribute` unwraps it from the annotation.
                 # Maybe create `internal_labels` and store "classvar" in there.
@@ -96,6 +98,8 @@ def _dataclass_parameters(class_: Class) -> list[Parameter]:
                 isinstance(member.annotation, Expr)
                 and member.annotation.canonical_path in {"typing.ClassVar", "typing_extensions.ClassVar"}
             ):
+                # Pseudo-field: not a parameter, but it shadows an inherited field of the same name.
+                parameters.append(Parameter(member.name, kind=None))
                 continue
 
             # Start of keyword-only parameters.
@@ -108,8 +112,9 @@ def _dataclass_parameters(class_: Class) -> list[Parameter]:
             is_field_call = field_args is not None
             field_args = field_args or {}
 
-            # Parameter not added to `__init__`, skip it.
+            # Parameter not added to `__init__`: it still overrides an inherited field of the same name.
             if field_args.get("init") == "False":
+                parameters.append(Parameter(member.name, kind=None))
                 continue
 
             # Determine parameter kind.
@@ -151,6 +156,9 @@ def _reorder_parameters(parameters: list[Parameter]) -> list[Parameter]:
     pos_kw = []
     kw_only = []
     for param in params_dict.values():
+        if param.kind is None:
+            # `ClassVar` or `init=False` entry (see `_dataclass_parameters`).
+            continue
         if param.kind is ParameterKind.positional_only:
             pos_only.append(param)
         elif param.kind is ParameterKind.keyword_only:
